@@ -163,6 +163,25 @@ var Shares = []Share{
 	{To: "C20", From: "C16", Rule: "R2", Key: `ParseUploadKeepFilesStatus`, Why: "whether temporary files are kept is the setting written last", Seed: "C20-K"},
 	{To: "C20", From: "C18", Rule: "R2", Why: "Close, which removes the temporary files, runs however the handler ends", Seed: "C20-L"},
 	{To: "C20", From: "C06", Rule: "R1", Key: `audit writer`, Why: "an audit target that cannot be opened is reported when the WAF is built, not swallowed at the first record", Seed: "C20-G"},
+	// round 7
+	{To: "C01", From: "C14", Rule: "R2", Why: "with multiMatch the operator is handed the outputs that report a change: a transformation that wrongly reports \"unchanged\" hides its output from the rule (missed match)", Seed: "C01-M"},
+	{To: "C01", From: "C05", Rule: "R1", Key: `Transaction\.(AllowType|Skip|SkipAfter)\b`, Why: "flow state left over from an earlier transaction makes Eval pass over rules whose targets match", Seed: "C01-N"},
+	{To: "C03", From: "C05", Rule: "R1", Key: reBodyConf, Why: "whether and how far the body is read is this transaction's setting, seeded from the WAF at hand-out: a predecessor's ctl override silently drops the next request's body", Seed: "C03-M"},
+	{To: "C04", From: "C09", Rule: "R5", Key: `used only where it parsed`, Why: "a sum continued with a substitute for an unparsable value depends on the order the values were visited in", Seed: "C04-M"},
+	{To: "C04", From: "C18", Rule: "R2", Key: `deferred clean-up`, Why: "a transaction closed twice is pooled twice: two later transactions share one object and see each other's data", Seed: "C04-N"},
+	{To: "C05", From: "C18", Rule: "R2", Key: `deferred clean-up`, Why: "as for C04: the pooled object is handed to two transactions at once", Seed: "C04-N"},
+	{To: "C05", From: "C10", Rule: "R1", Why: "the body entry points recognise \"limit already reached\" from the buffer's length, which Reset zeroes: a separate latch survives the pooled object", Seed: "C05-M"},
+	{To: "C07", From: "C05", Rule: "R4", Key: `reader`, Why: "a reader that survives Reset reads released storage with a stale position: slice bounds out of range", Seed: "C07-M"},
+	{To: "C07", From: "C20", Rule: "R3", Key: `Init stores`, Why: "a half-configured audit writer is a nil dereference in ProcessLogging", Seed: "C07-N fix39"},
+	{To: "C09", From: "C02", Rule: "R1", Key: `Eval\(`, Why: "a phase evaluated twice runs every non-disruptive action of its rules twice", Seed: "C09-M"},
+	{To: "C09", From: "C17", Rule: "R1", Key: `only one for its token`, Why: "an update attached twice makes each of its actions run twice per match", Seed: "C09-N"},
+	{To: "C10", From: "C18", Rule: "R4", Key: `delegate Write`, Why: "the connector forwards the buffered bytes before the bytes written after them", Seed: "C10-M"},
+	{To: "C12", From: "C01", Rule: "R4", Key: `doEvaluate: datum`, Why: "the value inspected is the selected value of the target being evaluated, read when that target is evaluated", Seed: "C12-N"},
+	{To: "C13", From: "C04", Rule: "R4", Pos: `internal/environment`, Why: "construction must not depend on process-wide state that other constructions share (a predictable file name)", Seed: "C13-N", Zero: true},
+	{To: "C15", From: "C09", Rule: "R5", Key: `macro expansion`, Why: "operators compare against the macro-expanded argument: the expansion of a present-but-empty variable is the empty string", Seed: "C15-M"},
+	{To: "C15", From: "C11", Rule: "R3", Key: `minLen`, Why: "@rx must decide what RE2 decides: a length bound above the real minimum rejects matching inputs", Seed: "C15-N"},
+	{To: "C19", From: "C02", Rule: "R5", Key: `reaches tx.Interrupt`, Why: "the would-be status of a DetectionOnly transaction is what RelevantOnly auditing decides on", Seed: "C19-M"},
+	{To: "C19", From: "C02", Rule: "R1", Key: `Eval\(`, Why: "a phase evaluated twice reports every fired rule twice to the error callback and the audit record", Seed: "C19-N"},
 }
 
 var (
